@@ -996,11 +996,37 @@ class DataFrame(_WithAccessor):
     # no __len__: pandera's only use of len(frame) is ErrorHandler's failure_cases_count (stored, never read), which falls back to
     # 1 on TypeError; deciding the height there would multiply the paths of every lazy template (measured: 4x the solver queries)
 
+    def _before(self, t, s):
+        """row t comes before row s"""
+        order = self.__dict__.get("_order")
+        if order is None:
+            return z3.BoolVal(t < s)
+        return z3.Or(order[t] < order[s], z3.And(order[t] == order[s], z3.BoolVal(t < s)))
+
+    def _keep_order(self, out):
+        if self.__dict__.get("_order") is not None:
+            object.__setattr__(out, "_order", self.__dict__["_order"])
+        return out
+
     def head(self, n=5):
-        newp = _head_mask(self.present, n)
-        return DataFrame(self._cols, present=newp, index=self.index.with_present(newp))
+        if self.__dict__.get("_order") is None:
+            newp = _head_mask(self.present, n)
+        else:
+            nz, m = lift_num(n), len(self.present)
+            newp = [z3.And(self.present[s], z3.Sum([z3.If(z3.And(self.present[t], self._before(t, s)), 1, 0) for t in range(m) if t != s] + [z3.IntVal(0)]) < nz)
+                    for s in range(m)]
+        return self._keep_order(DataFrame(self._cols, present=newp, index=self.index.with_present(newp)))
+
+    def drop_duplicates(self):
+        """rows equal (in every column) to a row that comes before them are removed"""
+        m = len(self.present)
+        eq = lambda s, t: zand(_cell_equal(c.vals[s], c.nulls[s], c.vals[t], c.nulls[t]) for _, c in self._cols)  # noqa: E731
+        newp = [z3.And(self.present[s], z3.Not(zor(z3.And(self.present[t], self._before(t, s), eq(s, t)) for t in range(m) if t != s))) for s in range(m)]
+        return self._keep_order(DataFrame(self._cols, present=newp, index=self.index.with_present(newp)))
 
     def tail(self, n=5):
+        if self.__dict__.get("_order") is not None:
+            raise ModelGap("tail of a key-ordered frame")
         newp = _head_mask(self.present[::-1], n)[::-1]
         return DataFrame(self._cols, present=newp, index=self.index.with_present(newp))
 
@@ -1014,7 +1040,10 @@ class DataFrame(_WithAccessor):
     def astype(self, t):
         return DataFrame([(k, c.astype(t)) for k, c in self._cols], present=self.present, index=self.index.copy())
 
-    def groupby(self, by):
+    def groupby(self, by, observed=None, sort=True):
+        # `observed` only matters for categorical keys with unused categories, which the templates do not build
+        if not sort:
+            raise ModelGap("groupby(sort=False)")
         return _FrameGroupBy(self, by)
 
     def apply(self, fn, axis=0):
@@ -1132,7 +1161,39 @@ class _ColumnIndexedGroupBy(_Gap):
                 entries = [(keys[t], z3.And(df.present[t], labels[t] == labels[s]), c.vals[t], c.nulls[t]) for t in range(n)]
                 cells.append(fn(_GroupCell(entries)))
             cols.append((k, Series(cells, present=first, kind="object", dtype=np.dtype(object))))
-        return DataFrame(cols, present=first, index=Index(labels, first, name=self.by))
+        out = DataFrame(cols, present=first, index=Index(labels, first, name=self.by))
+        object.__setattr__(out, "_order", list(labels))  # groupby sorts by key: row order is label order, not slot order
+        return out
+
+
+def _cell_equal(a, na, b, nb):
+    """equality of two cells as drop_duplicates sees it (nulls equal each other; dictionaries by content)"""
+    if isinstance(a, CaseDict) or isinstance(b, CaseDict):
+        if not (isinstance(a, CaseDict) and isinstance(b, CaseDict)):
+            return F
+        keys = sorted({k for k, *_ in a.entries} | {k for k, *_ in b.entries}, key=str)
+        terms = []
+        for k in keys:
+            ea = [(c, x, nl) for kk, c, x, nl in a.entries if kk == k]
+            eb = [(c, x, nl) for kk, c, x, nl in b.entries if kk == k]
+            ina, inb = zor(c for c, _, _ in ea), zor(c for c, _, _ in eb)
+            same = zand(z3.Implies(z3.And(ca, cb), z3.And(nla == nlb, z3.Or(nla, _term_eq(xa, xb)))) for ca, xa, nla in ea for cb, xb, nlb in eb)
+            terms.append(z3.And(ina == inb, same))
+        return z3.And(na == nb, z3.Or(na, zand(terms)))
+    return z3.And(na == nb, z3.Or(na, _term_eq(a, b)))
+
+
+def _term_eq(x, y):
+    x, y = getattr(x, "z", x), getattr(y, "z", y)
+    if z3.is_expr(x) and z3.is_expr(y):
+        if x.sort() == y.sort():
+            return x == y
+        if (z3.is_int(x) or z3.is_real(x)) and (z3.is_int(y) or z3.is_real(y)):
+            return (z3.ToReal(x) if z3.is_int(x) else x) == (z3.ToReal(y) if z3.is_int(y) else y)
+        return F
+    if z3.is_expr(x) or z3.is_expr(y):
+        raise ModelGap("comparison of a term with a constant cell")
+    return z3.BoolVal(x == y)
 
 
 class _FrameGroupBy:
